@@ -3,6 +3,8 @@ package main
 import (
 	"fmt"
 	"os"
+	"sort"
+	"strings"
 )
 
 func scUnit(name string, bound int) Unit {
@@ -32,10 +34,58 @@ var clusterAssumptions = []string{
 func clusterCheck(prop string, quick, thorough func() []Unit) {
 	register(&Check{Prop: prop, Level: "model_checking", Rule: clusterRule, Assumptions: clusterAssumptions, Units: func(tier string) []Unit {
 		if tier == "thorough" {
-			return thorough()
+			return append(withInjection(thorough(), 10, 2), feUnits(2)...)
 		}
-		return quick()
+		us := append(withInjection(quick(), 6, 0), feUnits(1)...)
+		if prop == "C08" {
+			us = append(us, feUnits(2, "fe-stepdown3")...)
+		}
+		return us
 	}})
+}
+
+// withInjection adds, for the first n1 coarse untimed scenarios of a check, the unit "<scenario>+inj" at bound 1
+// (one unscripted public-API call or isolation at any quiescent instant, see inject.go) and for the first n2 of
+// them the same at bound 2 (two such operations).
+func withInjection(us []Unit, n1, n2 int) []Unit {
+	out := us
+	seen := map[string]bool{}
+	k := 0
+	// scenarios with membership changes, snapshots and leader changes first: they give the injected operation most to disturb
+	pref := map[string]int{"member": 1, "snap3": 2, "crash3": 3, "stale-suffix": 4, "transfer": 5, "write3": 6, "snap3-trail1": 7, "fig8": 8}
+	sorted := append([]Unit{}, us...)
+	sort.SliceStable(sorted, func(i, j int) bool {
+		pi, pj := pref[sorted[i].Name], pref[sorted[j].Name]
+		if pi == 0 {
+			pi = 100
+		}
+		if pj == 0 {
+			pj = 100
+		}
+		return pi < pj
+	})
+	for _, u := range sorted {
+		if u.Sc == nil || u.Sc.Fine || u.Sc.Timed || u.Bound < 1 || seen[u.Name] || strings.HasPrefix(u.Name, "fe-") {
+			continue
+		}
+		seen[u.Name] = true
+		if k < n1 {
+			out = append(out, scUnit(u.Name+"+inj", 1))
+		}
+		if k < n2 {
+			out = append(out, scUnit(u.Name+"+inj", 2))
+		}
+		k++
+	}
+	return out
+}
+
+// feUnits: the FineEnv scenarios (scen_fe.go) at the given bound.
+func feUnits(bound int, names ...string) []Unit {
+	if len(names) == 0 {
+		names = []string{"fe-write3", "fe-elect3", "fe-stepdown3", "fe-depose-ack3", "fe-transfer3", "fe-addvoter3"}
+	}
+	return scUnits(bound, names...)
 }
 
 func cat(us ...[]Unit) []Unit {
@@ -91,10 +141,10 @@ func init() {
 		})
 	clusterCheck("C08",
 		func() []Unit {
-			return cat(scUnits(1, "write3", "write3-slowfsm", "write3-pipe", "crash3", "crash3-slowfsm", "transfer", "transfer-pipe", "majority-restart", "batch-mix", "batch-mix-plain", "batch-lag", "batch-lag-plain"), scUnits(2, "apply-fine1", "apply-fine1-batching", "apply-fine1-storeerr", "apply-fine1-batching-storeerr"))
+			return cat(scUnits(1, "write3", "write3-slowfsm", "write3-pipe", "crash3", "crash3-slowfsm", "transfer", "transfer-pipe", "majority-restart", "batch-mix", "batch-mix-plain", "batch-mix-slowfsm", "batch-lag", "batch-lag-plain", "batch-lag-slowfsm"), scUnits(2, "apply-fine1", "apply-fine1-batching", "apply-fine1-storeerr", "apply-fine1-batching-storeerr"))
 		},
 		func() []Unit {
-			return cat(scUnits(2, "write3", "write3-slowfsm", "write3-pipe", "crash3", "crash3-slowfsm", "transfer", "transfer-slowfsm", "transfer-pipe", "majority-restart", "fig8", "batch-mix", "batch-mix-plain", "batch-mix-cfgstore", "batch-lag", "batch-lag-plain"), scUnits(3, "apply-fine1", "apply-fine1-batching", "apply-fine1-storeerr", "apply-fine1-batching-storeerr"))
+			return cat(scUnits(2, "write3", "write3-slowfsm", "write3-pipe", "crash3", "crash3-slowfsm", "transfer", "transfer-slowfsm", "transfer-pipe", "majority-restart", "fig8", "batch-mix", "batch-mix-plain", "batch-mix-cfgstore", "batch-mix-slowfsm", "batch-lag", "batch-lag-plain", "batch-lag-slowfsm"), scUnits(3, "apply-fine1", "apply-fine1-batching", "apply-fine1-storeerr", "apply-fine1-batching-storeerr"))
 		})
 	clusterCheck("C10",
 		func() []Unit {
@@ -146,6 +196,7 @@ func init() {
 				us = append(us, scUnit("shutdown-"+k+"-batch", b))
 			}
 		}
+		us = append(us, feUnits(b, "fe-stepdown3", "fe-depose-ack3", "fe-transfer3", "fe-addvoter3")...)
 		us = append(us, scUnit("stepdown-calls", b), scUnit("verify-deposed", 1), scUnit("rcl1-after", 1), scUnit("rcl3-after", 1), scUnit("restore3-inflight", 1), scUnit("lease2nv-live", 0))
 		if tier == "thorough" {
 			us = append(us, scUnits(1, "write3", "crash3", "transfer", "member")...)
